@@ -154,7 +154,7 @@ func runConc(cfg ConcCfg, record bool) *concRun {
 	if record {
 		leveldb.VerifSink = func(point string, args []interface{}) {
 			switch point {
-			case "w.group", "w.publish", "m.rotate", "c.flush", "v.install", "m.drop", "c.table", "t.open", "t.installed", "t.publish", "t.done":
+			case "w.group", "w.applied", "w.publish", "m.rotate", "c.flush", "v.install", "m.drop", "c.table", "t.open", "t.installed", "t.publish", "t.done":
 				if atomic.LoadInt32(&cr.opened) == 0 {
 					return // recovery and the initial buffer belong to Open
 				}
@@ -521,6 +521,8 @@ func init() {
 func concLines(c *Ctx, evs []Event) {
 	c.Lean("conc reset 0", "ok")
 	flushTable := int64(-1)
+	var gseq uint64
+	var gn int
 	for _, e := range evs {
 		arg := func(i int) interface{} {
 			if i < len(e.Args) {
@@ -530,9 +532,11 @@ func concLines(c *Ctx, evs []Event) {
 		}
 		switch e.Point {
 		case "w.group":
-			seq, _ := arg(0).(uint64)
-			n, _ := arg(1).(int)
-			c.Lean(fmt.Sprintf("conc insert %d %d", seq, n), "ok")
+			// the entries go into the buffer only after the journal write succeeded (`w.applied`)
+			gseq, _ = arg(0).(uint64)
+			gn, _ = arg(1).(int)
+		case "w.applied":
+			c.Lean(fmt.Sprintf("conc insert %d %d", gseq, gn), "ok")
 		case "w.publish":
 			seq, _ := arg(0).(uint64)
 			c.Lean(fmt.Sprintf("conc publish %d", seq), "ok")
